@@ -277,6 +277,16 @@ class FitLsq(Contract):
         w = {"none": None, "array": 0.5 + rng.random(200)}.get(case["weights"], case["weights"])
         fx = {"f_delta": 2.0} if case["fixed"] == "delta" else {}
         perm = rng.permutation(200)
+        if case["weights"] in ("bogus", "scalar") or case["fixed"] not in ("none", "delta"):
+            # these cases document a rejection: the replay checks that the fit is refused
+            try:
+                kw = {"f_" + k: 1.5 for k in case["fixed"].split("+")} if case["fixed"] not in ("none",) else {}
+                E(**kw).fit(x, method="wlsq", weights=(3.0 if case["weights"] == "scalar" else (None if case["weights"] == "none" else case["weights"])))
+            except (ValueError, NotImplementedError, TypeError) as e:
+                return {"confirmed": False, "detail": f"rejected as documented: {type(e).__name__}: {e}"}
+            except Exception as e:
+                return {"confirmed": True, "detail": f"raised {type(e).__name__}: {e}"}
+            return {"confirmed": case["weights"] in ("bogus", "scalar"), "detail": "the fit was accepted"}
         try:
             a = E(**fx); a.fit(x, method="wlsq", weights=w)
             b = E(**fx); b.fit(x[perm], method="wlsq", weights=(w[perm] if isinstance(w, np.ndarray) else w))
